@@ -78,8 +78,8 @@ def check_insert(ck, tu, tree, cfg, rule="INSERT-EFFECT"):
         check_insert_at(ck, tu, tree, c, rule)
 
 
-def run_case(fn, caps, setup):
-    ex = absexec.Exec(fn, caps)
+def run_case(fn, caps, setup, tree=None):
+    ex = absexec.Exec(fn, caps, tu=tree)
     ctx = setup(ex)
     ret = ex.run(kids(fn.body))
     return ex, ctx, ret
@@ -118,7 +118,7 @@ def check_primitives_at(ck, tree, cfg, rule="PRIMITIVE-EFFECT"):
                     bind(ex, fn, [L, R, P])
                     ex.this["tail_leaf_"] = R
                     return L, R, P, live(L, "slotdata"), live(R, "slotdata")
-                ex, (L, R, P, L0, R0), ret = run_case(fn, caps, setup)
+                ex, (L, R, P, L0, R0), ret = run_case(fn, caps, setup, tree)
                 fl, _ = flags_of(ret)
                 if live(L, "slotdata") != L0 + R0:
                     problem = "merge_leaves(%d, %d): the left leaf holds %s instead of all %d entries of both leaves in order" % (
@@ -146,7 +146,7 @@ def check_primitives_at(ck, tree, cfg, rule="PRIMITIVE-EFFECT"):
                         L, R, P = absexec.Node("L", "inner", cap, l), absexec.Node("R", "inner", cap, r), parent()
                         bind(ex, fn, [L, R, P, ps])
                         return L, R, P, live(L, "slotkey"), live(R, "slotkey"), live(L, "childid", 1), live(R, "childid", 1), P.slotkey[ps]
-                    ex, (L, R, P, Lk, Rk, Lc, Rc, S), ret = run_case(fn, caps, setup)
+                    ex, (L, R, P, Lk, Rk, Lc, Rc, S), ret = run_case(fn, caps, setup, tree)
                     fl, _ = flags_of(ret)
                     if live(L, "slotkey") != Lk + [S] + Rk:
                         problem = "merge_inner(%d, %d, slot %d): keys become %s; expected left keys, the parent's separator slotkey[%d], right keys" % (
@@ -180,7 +180,7 @@ def check_primitives_at(ck, tree, cfg, rule="PRIMITIVE-EFFECT"):
                             L.next_leaf, R.prev_leaf = R, L
                             bind(ex, fn, [L, R, P, ps])
                             return L, R, P, live(L, "slotdata"), live(R, "slotdata")
-                        ex, (L, R, P, L0, R0), ret = run_case(fn, caps, setup)
+                        ex, (L, R, P, L0, R0), ret = run_case(fn, caps, setup, tree)
                         got = live(L, "slotdata") + live(R, "slotdata")
                         recv = L if donor_right else R
                         if got != L0 + R0:
@@ -224,7 +224,7 @@ def check_primitives_at(ck, tree, cfg, rule="PRIMITIVE-EFFECT"):
                             L, R, P = absexec.Node("L", "inner", cap, l), absexec.Node("R", "inner", cap, r), parent()
                             bind(ex, fn, [L, R, P, ps])
                             return L, R, P, live(L, "slotkey"), live(R, "slotkey"), live(L, "childid", 1), live(R, "childid", 1), P.slotkey[ps]
-                        ex, (L, R, P, Lk, Rk, Lc, Rc, S), ret = run_case(fn, caps, setup)
+                        ex, (L, R, P, Lk, Rk, Lc, Rc, S), ret = run_case(fn, caps, setup, tree)
                         gotk = live(L, "slotkey") + [P.slotkey[ps]] + live(R, "slotkey")
                         gotc = live(L, "childid", 1) + live(R, "childid", 1)
                         if gotk != Lk + [S] + Rk:
@@ -253,7 +253,7 @@ def check_primitives_at(ck, tree, cfg, rule="PRIMITIVE-EFFECT"):
             bind(ex, fn, [L, absexec.OutPtr("newkey"), absexec.OutPtr("newleaf")])
             ex.this["tail_leaf_"] = L
             return L, live(L, "slotdata")
-        ex, (L, L0), ret = run_case(fn, caps, setup)
+        ex, (L, L0), ret = run_case(fn, caps, setup, tree)
         N = ex.out.get("newleaf")
         if not isinstance(N, absexec.Node) or len(ex.new_nodes) != 1:
             problem = "split_leaf_node does not hand out the new leaf"
@@ -280,7 +280,7 @@ def check_primitives_at(ck, tree, cfg, rule="PRIMITIVE-EFFECT"):
                 I = absexec.Node("I", "inner", cap, cap, 1)
                 bind(ex, fn, [I, absexec.OutPtr("newkey"), absexec.OutPtr("newinner"), addslot])
                 return I, live(I, "slotkey"), live(I, "childid", 1)
-            ex, (I, K0, C0), ret = run_case(fn, caps, setup)
+            ex, (I, K0, C0), ret = run_case(fn, caps, setup, tree)
             N = ex.out.get("newinner")
             if not isinstance(N, absexec.Node):
                 problem = "split_inner_node does not hand out the new node"
